@@ -535,6 +535,7 @@ def token_next_block_range(repo):
 VERUS_LIFTS["token_next_block"] = token_next_block_range
 
 
+
 def lift_conflict_block(repo, gen):
     block_text, then_body, meta = conflict_block_range(repo)
     rel, declared, sha = meta["file"], meta["free_variables"], meta["sha256_16"]
